@@ -58,6 +58,8 @@ func (ex *Exec) intrinsic(fn *ssa.Function, args []Value) (Value, bool) {
 			return ex.nondet("uint64", 64), true
 		case "vNondetUint32":
 			return ex.nondet("uint32", 32), true
+		case "vNondetInt32":
+			return ex.nondet("int32", 32), true
 		case "vNondetUint16":
 			return ex.nondet("uint16", 16), true
 		case "vNondetByte":
